@@ -28,6 +28,23 @@ CLAIMED = {
                 "and two-level arrays: aborts iff i<0 or i>=N (mathematical), else designates exactly start+i*stride of that memory's layout; no access "
                 "outside the array object - for every index value.",
             "", "DESIGN.md 4/C17"),
+    "C02": (MC, "Run-time half: assign_raw_pointer on tainted and tainted_volatile and UNSAFE_accept_pointer for six pointee kinds abort iff the address is "
+                "outside that sandbox's region (symbolic base and address; with two live sandboxes the address may be in the other one); accepted values "
+                "are stored unchanged / as the representation relative to that sandbox, touching only the cell.",
+            "The compile-time half of C02 (rejected program shapes) is NOT decided: a rejected program has no IR to execute (same reason as C01).", "DESIGN.md 4/C02"),
+    "C04": (MC, "Four translation entry points, convert_type in all direction x context combinations, arrays of pointers, pointer cells, pointer arrays and "
+                "struct pointer fields (store and load), free: round trips and 0<->null for all 2^32 offsets and symbolic base; three live sandbox objects of "
+                "a multi-instance backend in all 6 creation orders x 7 destroy choices through the real sandbox_list/find_sandbox_from_example: a cell in "
+                "sandbox i is always encoded/decoded relative to sandbox i.",
+            "At most 3 live sandboxes.", "DESIGN.md 4/C04"),
+    "C07": (MC, "Stores and four load forms for 19 scalar types, arrays, pointer arrays and struct fields at every address where the guest object fits: "
+                "access log within [p,p+size_guest), bytes equal the guest encoding, every other byte of (fully symbolic) sandbox memory unchanged, loads "
+                "decode exactly those bytes; pointer-array copies on the noop backend.",
+            "", "DESIGN.md 4/C07"),
+    "C20": (MC, "to_opaque/from_opaque byte-identity for scalars, pointers, arrays and a struct; opaque and tainted arguments of an invocation observed "
+                "identically by the guest (or both abort); sandbox_reinterpret/const/static_cast on tainted and tainted_volatile sources equal the C++ cast "
+                "on the decoded value and keep pointer addresses - all bit patterns.",
+            "Opaque callback results are checked under C12.", "DESIGN.md 4/C20"),
     "C05": (MC, "p+n, p-n, +=, -=, ++/-- (pre/post), p[n], &p[n] for 8 pointee types x integer index types (plain, tainted, tainted_volatile) on LP32/LP16 "
                 "model backends with symbolic region base, pointer and full-width index: returns iff the exact 128-bit address p+/-n*s_guest is inside "
                 "the region and then returns exactly it, else aborts; null aborts.",
